@@ -5,6 +5,7 @@ package main
 import (
 	"fmt"
 	"go/types"
+	"os"
 	"strings"
 
 	"golang.org/x/tools/go/ssa"
@@ -263,6 +264,13 @@ func (g *gen) elabName(name string, e *env) (Val, error) {
 		if obj, ok := pk.Types.Scope().Lookup(name).(*types.Const); ok {
 			return g.constVal(ssa.NewConst(obj.Val(), obj.Type())), nil
 		}
+	}
+	if os.Getenv("GOVC_DEBUG") != "" {
+		blk := -1
+		if e.atBlock != nil {
+			blk = e.atBlock.Index
+		}
+		fmt.Fprintf(os.Stderr, "DEBUG unknown name %q atBlock=%d atEnd=%v fn=%s\n", name, blk, e.atEnd, g.fnKey)
 	}
 	return Val{}, fmt.Errorf("unknown name %q", name)
 }
